@@ -145,7 +145,12 @@ def extract(config='default'):
             raise ExtractError('driver did not write a fact file (config %s); cargo said:\n%s' % (config, r.stdout[-2000:]))
         os.replace(tmp_out, out)
         # prune old fact files and the per-tree lock files that belong to them
-        olds = sorted(glob.glob(os.path.join(CACHE, 'facts-*.json')), key=os.path.getmtime)
+        def mtime(p):
+            try:
+                return os.path.getmtime(p)
+            except OSError:         # pruned by a parallel run in the meantime
+                return 0.
+        olds = sorted(glob.glob(os.path.join(CACHE, 'facts-*.json')), key=mtime)
         for p in olds[:-KEEP_FACTS]:
             try:
                 os.remove(p)
